@@ -320,12 +320,15 @@ Definition dft_init_status (shape axes : list nat) (hc : bool) (default_range : 
   if default_range && existsb (fun n => (n =? 1)%nat) rshape then SValueErr else SOk.
 (* DiscreteFourierTransformInverse._call as the CURRENT code behaves (findings/C18.json):
    - onto a real space without halfcomplex the pyfftw back-end rejects the real output array
-     (ValueError from _pyfftw_check_args); the numpy back-end stores the real part;
+     (ValueError from _pyfftw_check_args for sign '-', from pyfftw.FFTW for sign '+' unless the
+     last axis has <= 2 points, where FFTW silently runs a c2r transform = real part of the
+     complex inverse); the numpy back-end stores the real part;
    - halfcomplex with the numpy back-end calls irfftn without `s`, so an odd last axis
      comes back one short and the assignment raises ValueError *)
-Definition dft_inverse_status (pyfftw real_dom hc : bool) (shape axes : list nat) : status :=
-  if real_dom && negb hc && pyfftw then SValueErr
-  else if real_dom && hc && negb pyfftw && Nat.odd (nth (last_axis axes) shape 0%nat) then SValueErr
+Definition dft_inverse_status (pyfftw real_dom hc : bool) (sg_minus : bool) (shape axes : list nat) : status :=
+  let nl := nth (last_axis axes) shape 0%nat in
+  if real_dom && negb hc && pyfftw && (sg_minus || (3 <=? nl)%nat) then SValueErr
+  else if real_dom && hc && negb pyfftw && Nat.odd nl then SValueErr
   else SOk.
 (* FourierTransformBase.__init__ *)
 Definition ft_init_status (g : list axis) (axes : list nat) (shifts : list bool) (hc : bool)
